@@ -21,6 +21,7 @@ RSParams == { [h |-> H.name, len |-> len, al |-> a, declared |-> d]
               : H \in {x \in Headers : x.name \in HeaderNames}, len \in 0..MaxLen, a \in 0..7, d \in 0..MaxDecl }
 RSCase(p) ==
   [mem |-> Image(HeaderByName(p.h), p.len, p.declared), al |-> p.al,
-   calls |-> <<[op |-> "bytes_ref", h |-> p.h], [op |-> "ref_from_slice", h |-> p.h]>>,
+   calls |-> <<[op |-> "bytes_ref", h |-> p.h], [op |-> "ref_from_slice", h |-> p.h]>>
+             \o (IF p.h # "mb" /\ p.al = 0 /\ p.len % 8 = 0 THEN <<[op |-> "clone_ref", h |-> p.h]>> ELSE <<>>),
    desc |-> [area |-> "refslice"] @@ p]
 =============================================================================
